@@ -9,6 +9,9 @@ def run(ctx, res):
     genarith.regenerate(ctx.pid, "audit", res)   # regenerated tie: overstatement assorter, u bound, tally margins (DESIGN 2.1)
     nw = ctx.n(320, 4000)
     pool, cmp_, spv, viol, runs, stats, facts = K.run_worlds(ctx, nw)
+    bviol, bruns, bstats = K.run_big(ctx, ctx.n(4, 40))      # large / awkward worlds: oracles only
+    viol, runs = viol + bviol, runs + bruns
+    stats.update(bstats)
     K.correspondences(ctx, res, pool, cmp_, [])
     res.oracle_runs += runs
     for v in viol:
